@@ -15,7 +15,6 @@ NOTE = {
               "partial writes after open are outside the claim and the serialisers are stubs",
     "C07-m6": "missed: needs warnings turned into errors by the caller's warnings filter (the report is emitted after the file was written); "
               "the engine's warnings.warn is a recorder that never raises",
-    "C08-m6": "missed: needs a '/' inside a name and inside a sibling's type so that the joined keys collide; names are one character, types come from a pool",
     "C10-m4": "missed: state leaks between two RDFWriter objects through a module-level cache; every obligation creates one writer and checks it against its own table",
     "C06-m4": "missed by C06's quick tier, which leaves extend to C05 (same harness, frame assertion included): C05.extend reports it; C06's thorough tier runs values_extend itself",
     "C16-m4": "missed by construction: an lxml parser option (huge_tree) that matters only for documents nested deeper than ~330 levels",
